@@ -11,6 +11,7 @@ import (
 	"time"
 
 	"github.com/kercylan98/vivid"
+	"vsimrt/simnet"
 	vsimrt "vsimrt/simrt"
 )
 
@@ -19,6 +20,7 @@ import (
 func init() {
 	register(&Workload{Prop: "C07", Variant: "sequential", Horizon: 20 * time.Minute, MaxSteps: 150000, MaxG: 4096, Spin: 5000, PCTLen: 1500, Body: func(r *R) { c07(r, false) }})
 	register(&Workload{Prop: "C07", Variant: "concurrent", Horizon: 20 * time.Minute, MaxSteps: 150000, MaxG: 4096, Spin: 5000, PCTLen: 1500, Body: func(r *R) { c07(r, true) }})
+	register(&Workload{Prop: "C07", Variant: "with-remoting", Horizon: 30 * time.Minute, MaxSteps: 600000, MaxG: 8192, Spin: 40000, PCTLen: 4000, Body: c07Remoting})
 }
 
 const (
@@ -352,4 +354,115 @@ func c07(r *R, concurrent bool) {
 			r.Fail("C07/goroutine-leak created-at="+site+" state="+g.State, "after Stop and quiescence %d goroutine(s) of the system are still alive: %s", len(live), describeLive(live))
 		}
 	}
+}
+
+
+// Start/Stop/cancel on a system with remoting: a listener, an accepted and a dialled connection, an outbound queue
+// to an unreachable peer. After Stop no goroutine of the stopped system may be alive (accept loop, connection
+// readers, the outbound sender goroutine, timers).
+func c07Remoting(r *R) {
+	nw := simnet.New()
+	nw.ChunkMode = simnet.ChunkMixed
+	peer := StartRNode(r, nw, 2, "127.0.0.1:9402", RNodeOpt{ReconnectLimit: 1, InitialDelay: 50 * time.Millisecond, MaxDelay: 100 * time.Millisecond})
+	if r.Failed() {
+		return
+	}
+	peer.Sink("sink")
+	n := StartRNode(r, nw, 1, "127.0.0.1:9401", RNodeOpt{ReconnectLimit: []int{0, 1, 3}[r.Choose(3)], InitialDelay: 50 * time.Millisecond, MaxDelay: 200 * time.Millisecond})
+	if r.Failed() {
+		return
+	}
+	n.Sink("sink")
+	vsimrt.Settle()
+	traffic := r.Choose(4) // 0 none, 1 outbound, 2 both directions, 3 both + messages to an unreachable third address
+	useCancel := false
+	stopTimeout := []time.Duration{2 * time.Second, 10 * time.Second, 30 * time.Second}[r.Choose(3)]
+	second := r.Choose(3) // what follows the first Stop: 0 nothing, 1 Stop again, 2 Start again
+	r.Sample(map[string]any{"traffic": []string{"none", "outbound", "both", "both+unreachable"}[traffic], "stop_timeout": stopTimeout.String(), "then": []string{"-", "Stop", "Start"}[second]})
+	send := func(from, to *RNode, k int) {
+		from.Do(func() {
+			ref, _ := from.Sys.CreateRef(to.Addr, "/sink")
+			for i := 0; i < k; i++ {
+				from.Sys.Tell(ref, newRMsg("c07", int64(i), 40, 0))
+			}
+		})
+	}
+	if traffic >= 1 {
+		send(n, peer, 3)
+	}
+	if traffic >= 2 {
+		send(peer, n, 3)
+	}
+	if traffic == 3 {
+		n.Do(func() {
+			ref, _ := n.Sys.CreateRef("127.0.0.1:9499", "/nobody")
+			n.Sys.Tell(ref, newRMsg("c07", 99, 10, 0))
+		})
+	}
+	if r.Chance(50) {
+		vsimrt.SettleFor(200 * time.Millisecond)
+	}
+	_ = useCancel
+	t0 := time.Now()
+	var err error
+	n.Do(func() {
+		r.Waiting("Stop() of the system with remoting")
+		err = n.Sys.Stop(stopTimeout)
+		vsimrt.Yield()
+	})
+	took := time.Since(t0)
+	if took > stopTimeout+time.Millisecond {
+		r.Fail("C07/stop-exceeded-timeout with-remoting", "Stop(%v) of a system with remoting returned after %v", stopTimeout, took)
+		return
+	}
+	if err != nil {
+		r.Fail("C07/stop-timed-out with-remoting", "Stop(%v) of a system with remoting (traffic: %s) returned %v; live goroutines of the node: %s", stopTimeout, []string{"none", "outbound", "both", "both+unreachable"}[traffic], err, describeLive(liveOfTag(r, 1)))
+		return
+	}
+	switch second {
+	case 1:
+		n.Do(func() {
+			r.Waiting("second Stop()")
+			err = n.Sys.Stop(stopTimeout)
+			vsimrt.Yield()
+		})
+		if errName(err) != "already-stopped" {
+			r.Fail("C07/wrong-result op=Stop state=stopped got="+errName(err)+" with-remoting", "second Stop returned %v", err)
+			return
+		}
+	case 2:
+		n.Do(func() {
+			r.Waiting("Start() after Stop()")
+			err = n.Sys.Start()
+			vsimrt.Yield()
+		})
+		if errName(err) != "already-stopped" {
+			r.Fail("C07/wrong-result op=Start state=stopped got="+errName(err)+" with-remoting", "Start after Stop returned %v", err)
+			return
+		}
+	}
+	// the retries of the message to the unreachable address are bounded (limit <= 3, delays <= 200 ms) and must not
+	// outlive the system; give everything a generous moment, then look for survivors of node 1
+	vsimrt.SettleFor(20 * time.Second)
+	if live := liveOfTag(r, 1); len(live) > 0 {
+		g := live[0]
+		r.Fail("C07/goroutine-leak with-remoting created-at="+lineRe.ReplaceAllString(g.Site, "")+" state="+g.State, "20 simulated seconds after Stop returned, %d goroutine(s) of the stopped system are still alive: %s", len(live), describeLive(live))
+		return
+	}
+	// the peer must still be able to stop as well (it lost its connections to the stopped node)
+	if err := peer.Stop(); err != nil {
+		r.Fail("C07/peer-stop-failed", "the peer of a stopped system could not stop: %v; live: %s", err, describeLive(liveOfTag(r, 2)))
+		return
+	}
+	netFaultCounts(r, nw)
+}
+
+func liveOfTag(r *R, tag int) []vsimrt.GInfo {
+	var out []vsimrt.GInfo
+	for _, g := range r.Sim.Live() {
+		if g.Tag == tag {
+			out = append(out, g)
+		}
+	}
+	return out
 }
